@@ -17,6 +17,10 @@ fn main() {
         eprintln!("usage: harness <stream> <quick|thorough> <seed> <outdir>");
         std::process::exit(2);
     }
+    if args[1] == "gen-materoots" {
+        engine::gen_mate_roots(args[2].parse().unwrap(), args[3].parse().unwrap(), &args[4]);
+        return;
+    }
     if args[1] == "gen-lines" {
         engine::gen_lines(args[2].parse().unwrap(), args[3].parse().unwrap(), &args[4]);
         return;
